@@ -501,18 +501,25 @@ class Body:
         return False
 
     def local_origin(self, l, depth=24):
+        # memoised together with the depth budget it was computed with: a term cut off by a small budget (all_defs_origins uses 8) must not
+        # be handed to a later caller that asks with the full budget (the result would depend on the order in which rules run)
         key = ("lo", l)
-        if key in self._memo:
-            return self._memo[key]
+        hit = self._memo.get(key)
+        if hit is not None and hit[1] >= depth:
+            return hit[0]
         if 1 <= l <= self.argc:
             r = ("param", l, self.debug.get(l, ""))
+            self._memo[key] = (r, 1 << 30)
+            return r
         elif depth <= 0 or not self.is_stable_local(l):
             r = ("local", l, self.debug.get(l, ""))
             if depth <= 0:
                 return r
+            self._memo[key] = (r, 1 << 30)
+            return r
         else:
             d = self.defs[l][0]
-            self._memo[key] = ("local", l, self.debug.get(l, ""))   # cycle guard
+            self._memo[key] = (("local", l, self.debug.get(l, "")), 1 << 30)   # cycle guard
             if d[2] == "call":
                 t = d[3]
                 c = t["callee"]
@@ -520,7 +527,7 @@ class Body:
                 r = ("call", name, tuple(self.origin(a, depth - 1) for a in t["args"]), tuple(c.get("args", [])), d[0], c.get("resolved"))
             else:
                 r = self.rv_origin(d[3]["rv"], depth - 1)
-        self._memo[key] = r
+        self._memo[key] = (r, depth)
         return r
 
     def local_origin_at_return(self):
@@ -555,7 +562,7 @@ class Body:
             return ("agg", kind, tuple(self.origin(o, depth) for o in rv["ops"]))
         return ("rv?", k)
 
-    def all_defs_origins(self, l, depth=8):
+    def all_defs_origins(self, l, depth=24):
         """origin terms of every definition of a (possibly multi-defined) local"""
         out = []
         for d in self.defs.get(l, []):
